@@ -152,6 +152,16 @@ def handle (line : String) : String :=
         | none => "bad-op"
         | some (r, _) => "|".intercalate ((serve ids (init.length + 1) r frames).map (showReply ids))
       | _, _ => "bad-op"
+    | "conc" =>   -- read-only calls issued concurrently through the pipelined client: each gets ITS answer
+      match (o.get? "init").bind parseOps, (o.get? "calls").bind parseOps with
+      | some init, some calls =>
+        match runSeq ids false {} 0 init with
+        | none => "bad-op"
+        | some (r, _) =>
+          match calls.mapM (toCOp ids) with
+          | none => "bad-op"
+          | some cs => "|".intercalate (cs.map fun c => showRes ids (wireStep ids r (init.length + 1) c).2)
+      | _, _ => "bad-op"
     | "enc" =>
       match (o.get? "op").bind parseSOp with
       | none => "bad-op"
